@@ -306,6 +306,7 @@ def run(ctx, drv):
         ref = mk(eps)
         for m_ in list(dst):
             ref.add(m_)
+        offered_before = list(dst)
 
         def merge():
             nonlocal dst
@@ -327,10 +328,28 @@ def run(ctx, drv):
         if isinstance(r, str):
             ctx.fail("add-raises", inp, r, "merged archive", "core.Archive.__iadd__ / extend")
         else:
+            # what the statement says about the archive after this insertion history (+= / extend offer their items, in whatever
+            # order the implementation likes): one member per box, no member's box dominates another's, every item offered is covered
+            members = list(dst)
+            bx = lambda s_: box(dirs, eps, s_)
+            cvof = lambda s_: s_.constraint_violation if constrained else 0.0
+            bad_inv = None
+            for i_ in range(len(members)):
+                for j_ in range(len(members)):
+                    if i_ != j_ and cvof(members[i_]) == cvof(members[j_]) and all(x <= y for x, y in zip(bx(members[i_]), bx(members[j_]))):
+                        bad_inv = ("two-members-in-one-box" if bx(members[i_]) == bx(members[j_]) else "member-box-dominates-member", [list(members[i_].objectives), list(members[j_].objectives)])
+            if bad_inv is None:
+                for o_ in list(items) + offered_before:
+                    if not any(cvof(m_) < cvof(o_) or (cvof(m_) == cvof(o_) and all(x <= y for x, y in zip(bx(m_), bx(o_)))) for m_ in members):
+                        bad_inv = ("offered-solution-not-covered", list(o_.objectives))
+                        break
+            if bad_inv is not None:
+                ctx.fail(bad_inv[0], inp, bad_inv[1], "the archive invariants after += / extend", "core.Archive.__iadd__ / extend")
+            # and, as a model of these entry points: they are the same as offering the items one by one, in order
             a_, b_ = [id(m_) for m_ in dst], [id(m_) for m_ in ref]
             if a_ != b_ or getattr(dst, "improvements", None) != getattr(ref, "improvements", None):
-                ctx.fail("merge-is-not-repeated-add", inp, {"members": len(a_), "improvements": getattr(dst, "improvements", None)},
-                         {"members": len(b_), "improvements": getattr(ref, "improvements", None)}, "core.Archive.__iadd__ / extend")
+                ctx.disagree("+= / extend = repeated add in order (members and improvement counter)", inp, {"members": len(a_), "improvements": getattr(dst, "improvements", None)},
+                             {"members": len(b_), "improvements": getattr(ref, "improvements", None)})
         ctx.case(("merge", k, how), len(items) > 1)
     ctx.count("merge_entry_points", 300 if ctx.quick() else 5000)
     if drv.ok:
